@@ -33,10 +33,12 @@ def same(got, want):
 def in_extent(t):
     for b in t["intervals"]:
         for k in b.blocks:
-            if k.offset + k.size > b.size:
+            # the first byte (the "at" position) must lie inside the extent,
+            # and so must the whole block
+            if k.offset + k.size > b.size or k.offset >= b.size:
                 return False
         for o in b.symbolic_expressions:
-            if o >= max(b.size, 1):
+            if o >= b.size:
                 return False
     return True
 
